@@ -6,6 +6,11 @@ package search
 // replaced shards are really unmapped while searches run.
 // Checks: no panic / no search error, every search sees at most one version per repository, the loaded set
 // converges to the directory once it stops changing. Data races are reported by the race detector.
+//
+// Bounded so that it completes on a busy machine: all shard contents are built BEFORE the run (building under
+// -race is slow), the mutator performs at most VERIF_N operations and stops early after its time budget
+// (VERIF_C19_RACE_BUDGET_S, default 120 s), the convergence wait is bounded (60 s), searches are paced.
+// The check treats only a data-race report or a crash/panic as deciding; everything else is supporting evidence.
 
 import (
 	"bytes"
@@ -50,7 +55,12 @@ func vfC19RaceBlob(t testing.TB, repo string, ver int) []byte {
 func TestVerifC19Race(t *testing.T) {
 	log.SetOutput(io.Discard)
 	r := vfNewRand(vfSeed())
-	nops := vfN(300)
+	nops := vfN(240)
+	budget := 120 * time.Second
+	if v, err := strconv.Atoi(os.Getenv("VERIF_C19_RACE_BUDGET_S")); err == nil && v > 0 {
+		budget = time.Duration(v) * time.Second
+	}
+	began := time.Now()
 	dir := filepath.Join(os.Getenv("VERIF_TMP"), "c19race")
 	if os.Getenv("VERIF_TMP") == "" {
 		dir = filepath.Join(t.TempDir(), "r")
@@ -113,7 +123,7 @@ func TestVerifC19Race(t *testing.T) {
 			vfOracleFail("race:"+key, what, map[string]any{"seed": vfSeed(), "ops": nops})
 		}
 	}
-	var searches, nonEmpty atomic.Int64
+	var searches, nonEmpty, lists, gcs atomic.Int64
 	observe := func() (map[string]int, bool) {
 		res, err := ds.Search(context.Background(), &query.Substring{Pattern: "marker"}, &zoekt.SearchOptions{})
 		if err != nil {
@@ -151,7 +161,11 @@ func TestVerifC19Race(t *testing.T) {
 			defer wg.Done()
 			defer func() {
 				if e := recover(); e != nil {
-					fail("search-panic", fmt.Sprint("a search panicked during reloads: ", e))
+					if i == 3 {
+						fail("list-panic", fmt.Sprint("List panicked during reloads: ", e))
+					} else {
+						fail("search-panic", fmt.Sprint("a search panicked during reloads: ", e))
+					}
 				}
 			}()
 			for {
@@ -160,11 +174,12 @@ func TestVerifC19Race(t *testing.T) {
 					return
 				default:
 				}
-				time.Sleep(300 * time.Microsecond) // leave CPU to the watcher and the mutator
+				time.Sleep(500 * time.Microsecond) // leave CPU to the watcher and the mutator
 				if i == 3 {
 					if _, err := ds.List(context.Background(), &query.Const{Value: true}, nil); err != nil {
 						fail("list-error", "List returned an error during reloads: "+err.Error())
 					}
+					lists.Add(1)
 				} else if seen, ok := observe(); ok {
 					searches.Add(1)
 					if len(seen) > 0 {
@@ -175,7 +190,9 @@ func TestVerifC19Race(t *testing.T) {
 		}(i)
 	}
 
-	for op := 0; op < nops; op++ {
+	done := 0
+	for op := 0; op < nops && time.Since(began) < budget; op++ {
+		done++
 		rp := r.Pick(repos)
 		base := rp + "_v16.00000.zoekt"
 		switch c := r.Intn(100); {
@@ -202,13 +219,15 @@ func TestVerifC19Race(t *testing.T) {
 			os.Remove(filepath.Join(dir, base+".meta"))
 		}
 		if r.Chance(40) {
-			runtime.GC()
+			runtime.GC() // runs the finalizers of replaced shards (munmap) while searches are in flight
+			gcs.Add(1)
 		}
 		time.Sleep(time.Duration(r.Intn(8)) * time.Millisecond)
 	}
+	mutated := time.Since(began)
 
 	// quiescence: the loaded set must converge to the directory
-	deadline := time.Now().Add(20 * time.Second)
+	deadline := time.Now().Add(60 * time.Second)
 	converged := false
 	var last map[string]int
 	for time.Now().Before(deadline) {
@@ -239,7 +258,8 @@ func TestVerifC19Race(t *testing.T) {
 			want = append(want, fmt.Sprintf("%s=v%d", rp, v))
 		}
 		sort.Strings(want)
-		fail("no-convergence", fmt.Sprintf("20s after the last change the searcher serves %v, the directory holds %v", last, want))
+		fail("no-convergence", fmt.Sprintf("60s after the last change the searcher serves %v, the directory holds %v", last, want))
 	}
-	vfInfo(map[string]any{"race_stress": map[string]any{"ops": nops, "searches": searches.Load(), "non_empty": nonEmpty.Load(), "converged": converged}})
+	vfInfo(map[string]any{"race_stress": map[string]any{"ops_planned": nops, "ops": done, "searches": searches.Load(), "non_empty": nonEmpty.Load(),
+		"lists": lists.Load(), "forced_gcs": gcs.Load(), "converged": converged, "mutation_s": int(mutated.Seconds()), "total_s": int(time.Since(began).Seconds())}})
 }
